@@ -106,7 +106,8 @@ def run_op(op):
                                        validate=op[4] if len(op) > 4 else 1)
             return "ok:" + m.serialize().hex() + "|" + str(m) + "|" + repr(m) + "|" + repr(C.public_attrs(m))
         if k == "build-payload":
-            m = pyubx2.UBXMessage(bytes(op[1])[0:1], bytes(op[1])[1:2], op[2], payload=bytes(op[3]))
+            extra = dict(op[4]) if len(op) > 4 else {}
+            m = pyubx2.UBXMessage(bytes(op[1])[0:1], bytes(op[1])[1:2], op[2], payload=bytes(op[3]), **extra)
             return "ok:" + m.serialize().hex() + "|" + str(m) + "|" + repr(m)
         if k == "build-kw":
             m = pyubx2.UBXMessage(bytes(op[1])[0:1], bytes(op[1])[1:2], op[2], **dict(op[3]))
@@ -520,6 +521,10 @@ def op_for_target(draw, t, kinds=("parse", "build-payload", "build-kw")):
         return ["build-kw", t.clsid, t.mode, [[k, v] for k, v in kw.items()]]
     pk, payload = draw(gframes.payload_for(t, max_payload=300))
     if kind == "build-payload":
+        if draw(st.integers(0, 2)) == 0 and not G.audit_fatal(t.defn):
+            # "any other keyword parms are ignored" when payload is given (constructor docstring)
+            names = [k_ for k_, v_ in t.defn.items() if isinstance(v_, str)][:3] or ["version"]
+            return ["build-payload", t.clsid, t.mode, payload, [[names[0], 1], ["parsebitfield", draw(st.booleans())]]]
         return ["build-payload", t.clsid, t.mode, payload]
     return ["parse", codec.ubx_frame(t.clsid[0:1], t.clsid[1:2], payload),
             draw(st.sampled_from([t.mode, t.mode, 3, 0])), draw(st.sampled_from([1, 0]))]
